@@ -47,6 +47,9 @@ PLANS = {
     "C15": dict(level="exploration", stages=both("c15"),
                 assumptions=["big-integer definitions in harness/vh/src/props/c15.rs (cross-checked against the reference model at start-up) are the FIPS 204 definitions of the auxiliary functions",
                              "'documented input range' = the debug_assert preconditions / doc comments in helpers.rs"]),
+    "C16": dict(level="exploration", stages=both("c16") + [dict(name="c16-miri", kind="py", func="c16_miri", tiers=["thorough"])],
+                assumptions=["no padding bytes in the key structs (all fields are byte or i32 arrays; Miri would flag a read of padding)",
+                             "copies left on the stack by moves that happened before the drop are out of reach"]),
     "C18": dict(level="exploration", stages=both("c18"),
                 assumptions=ASSUME_REF + ["the schoolbook negacyclic product in i128 (refimpl::schoolbook_mul) is the definition of multiplication in Z_q[X]/(X^256+1)",
                                           "no adversarial witness is constructible for ML-DSA-44 with this method (DESIGN 3.2); for 44 the check relies on extremal patterns"]),
@@ -94,3 +97,433 @@ def c12_strace(a):
                 exhaustive=False, evaluations=os_calls, distinct_nontrivial=n32,
                 samples=[dict(os_rng_api_calls=os_calls, getrandom_32_byte_syscalls=n32, other_getrandom_calls=other[:6])],
                 counters=dict(os_rng_api_calls=os_calls, getrandom32=n32), violations=violations, inconclusive=[], wall_s=time.time() - t0)
+
+
+# ---------------------------------------------------------------------------------------------
+# C14: SanitizerCoverage trace equality, valgrind secret taint, callgrind profiles
+# ---------------------------------------------------------------------------------------------
+
+def _build_ct(a, opt=None):
+    """plain release build (opt=None) or sancov-instrumented build at the given opt-level"""
+    env = dict(a["env"])
+    if opt is None:
+        tdir = os.path.join(a["harness"], "target")
+    else:
+        tdir = os.path.join(a["harness"], "target", f"sancov-O{opt}")
+        env["RUSTC_WRAPPER"] = os.path.join(a["verif"], "bin", "sancov-wrapper")
+        env["CARGO_TARGET_DIR"] = tdir
+        env["CARGO_PROFILE_RELEASE_OPT_LEVEL"] = opt
+    t0 = time.time()
+    r = subprocess.run(["cargo", "build", "--release", "-p", "ct"], cwd=a["harness"], env=env,
+                       stdout=subprocess.PIPE, stderr=subprocess.STDOUT, text=True)
+    if r.returncode != 0:
+        raise Inconclusive(f"ct build (opt={opt}) failed: {r.stdout[-1500:]}")
+    a["log"](f"build ct opt={opt}: {time.time()-t0:.1f}s")
+    return os.path.join(tdir, "release", "ct")
+
+
+def _symbolise(exe, runtime_pc, anchor_runtime):
+    """file:line of a runtime PC, using the runtime address of ct::pipeline_call as the anchor"""
+    try:
+        nm = subprocess.run(["nm", "-C", exe], capture_output=True, text=True).stdout
+        static = None
+        for line in nm.splitlines():
+            if line.endswith("ct::pipeline_call") or " ct::pipeline_call" in line:
+                static = int(line.split()[0], 16)
+                break
+        if static is None:
+            return None
+        off = int(runtime_pc, 16) - int(anchor_runtime, 16) + static
+        r = subprocess.run(["addr2line", "-f", "-C", "-i", "-e", exe, hex(off)], capture_output=True, text=True)
+        return " <- ".join(x.strip() for x in r.stdout.splitlines()[:6])
+    except Exception as e:  # diagnosis only
+        return f"(symbolisation failed: {e})"
+
+
+def c14_sancov(a):
+    tier, seed = a["tier"], a["seed"]
+    opts = ["3"] if tier == "quick" else ["1", "s", "3"]
+    n_inputs = 1280 if tier == "quick" else 20000
+    variants = 64 if tier == "quick" else 2000
+    shards = 16
+    t0 = time.time()
+    violations, samples, counters, inconclusive = [], [], {}, []
+    evaluations = 0
+    distinct = 0
+    pre = ["setarch", "x86_64", "-R"] if shutil.which("setarch") else []
+    for opt in opts:
+        exe = _build_ct(a, opt)
+        # ---- kernels alone ----
+        kout = os.path.join(a["work"], f"c14-kernels-O{opt}.json")
+        r = subprocess.run(pre + [exe, "kernels", str(seed), str(variants), kout], capture_output=True, text=True, timeout=3600)
+        if r.returncode != 0 or not os.path.exists(kout):
+            raise Inconclusive(f"ct kernels failed at O{opt}: {r.stderr[-500:]}")
+        kd = json.load(open(kout))
+        if kd["guards"] == 0:
+            raise Inconclusive("the binary is not instrumented (0 coverage guards)")
+        counters[f"guards_O{opt}"] = kd["guards"]
+        for k in kd["kernels"]:
+            evaluations += k["variants"]
+            distinct += k["distinct_inputs"]
+            if k["distinct_inputs"] < 3:
+                inconclusive.append(f"kernel {k['kernel']} saw fewer than 3 distinct inputs")
+            if k["distinct_traces"] != 1:
+                div = k.get("divergence") or {}
+                where = _symbolise(exe, div.get("last_common_edge_pc", "0x0"), kd["anchor_runtime_pc"]) if div.get("last_common_edge_pc") else None
+                violations.append(dict(signature=f"C14|kernel-trace-differs|{k['kernel']}|O{opt}",
+                                       detail=f"kernel {k['kernel']} at opt-level {opt}: {k['distinct_traces']} distinct (edge, address) traces over {k['variants']} in-domain inputs; first divergence after {where}",
+                                       replay=dict(kind="c14-kernel", kernel=k["kernel"], opt=opt, seed=seed, variants=variants, divergence=div, where=where)))
+        samples.append(dict(opt_level=opt, kernel="ntt", trace=[k for k in kd["kernels"] if k["kernel"] == "ntt"][0]["trace"], variants=variants))
+        # ---- whole pipeline, sharded over processes ----
+        for st in (44, 65, 87):
+            procs = []
+            for sh in range(shards):
+                lo = sh * n_inputs // shards
+                hi = (sh + 1) * n_inputs // shards
+                out = os.path.join(a["work"], f"c14-pipe-O{opt}-{st}-{sh}.json")
+                if os.path.exists(out):
+                    os.remove(out)
+                procs.append((subprocess.Popen(pre + [exe, "pipeline", str(st), str(lo), str(hi), str(seed), out], stdout=subprocess.DEVNULL, stderr=subprocess.PIPE), out))
+            reps = []
+            for pr, out in procs:
+                try:
+                    _, err = pr.communicate(timeout=7200)
+                except subprocess.TimeoutExpired:
+                    pr.kill()
+                    raise Inconclusive("pipeline shard exceeded its watchdog")
+                if pr.returncode != 0 or not os.path.exists(out):
+                    raise Inconclusive(f"pipeline shard failed: {err.decode()[-300:]}")
+                reps.append(json.load(open(out)))
+            runs = sum(r["runs"] for r in reps)
+            sigs = sum(r["distinct_signatures"] for r in reps)
+            evaluations += runs
+            distinct += sigs
+            if sigs < runs:
+                inconclusive.append(f"ML-DSA-{st} O{opt}: only {sigs} distinct signatures for {runs} RNG outputs")
+            keyset = set()
+            for r in reps:
+                t = r["traces"][0]
+                # the address hash is only comparable inside one process (stack placement depends on argv/env
+                # even without ASLR); across shards compare the edge sequence and the event counts
+                keyset.add((t["edge_hash"], t["edge_count"], t["mem_count"]))
+                if r["distinct_traces"] != 1:
+                    div = r.get("divergence") or {}
+                    where = _symbolise(exe, div.get("last_common_edge_pc", "0x0"), r["anchor_runtime_pc"]) if div.get("last_common_edge_pc") else None
+                    violations.append(dict(signature=f"C14|pipeline-trace-differs|ML-DSA-{st}|O{opt}",
+                                           detail=f"dudect_keygen_sign_with_rng (ML-DSA-{st}, opt-level {opt}): {r['distinct_traces']} distinct traces within inputs {r['lo']}..{r['hi']}; first divergence after {where}",
+                                           replay=dict(kind="c14-pipeline", set=st, opt=opt, seed=seed, lo=r["lo"], hi=r["hi"], divergence=div, where=where)))
+            if len(keyset) != 1 and not any(v["signature"].startswith(f"C14|pipeline-trace-differs|ML-DSA-{st}|O{opt}") for v in violations):
+                violations.append(dict(signature=f"C14|pipeline-trace-differs-across-shards|ML-DSA-{st}|O{opt}",
+                                       detail=f"shards (disjoint input ranges, separate processes) disagree on the trace: {sorted(keyset)[:3]}",
+                                       replay=dict(kind="c14-pipeline", set=st, opt=opt, seed=seed, lo=0, hi=n_inputs)))
+            t = reps[0]["traces"][0]
+            counters[f"pipeline_ML-DSA-{st}_O{opt}_edges_per_run"] = t["edge_count"]
+            counters[f"pipeline_ML-DSA-{st}_O{opt}_memory_events_per_run"] = t["mem_count"]
+            counters[f"pipeline_ML-DSA-{st}_O{opt}_runs"] = runs
+            counters[f"pipeline_ML-DSA-{st}_O{opt}_distinct_traces"] = len(keyset) if all(r["distinct_traces"] == 1 for r in reps) else 2
+            if st == 44:
+                samples.append(dict(opt_level=opt, set=st, rng_output=reps[0]["traces"][0]["first_input"], trace=t, runs_with_this_trace=runs))
+    return dict(property_id="C14", stage="c14-sancov", build="sancov", tier=tier, seed=seed,
+                rule="", exhaustive=False, evaluations=evaluations, distinct_nontrivial=distinct, samples=samples,
+                counters=counters, violations=violations, inconclusive=inconclusive, wall_s=time.time() - t0)
+
+
+def c14_taint(a):
+    """valgrind memcheck as a secret-taint monitor over the kernels (machine-code level)"""
+    if not shutil.which("valgrind"):
+        raise Inconclusive("valgrind not available")
+    exe = _build_ct(a, None)
+    t0 = time.time()
+    out = os.path.join(a["work"], "c14-taint.json")
+    r = subprocess.run(["valgrind", "--error-exitcode=0", "--num-callers=12", exe, "taint", str(a["seed"]), out],
+                       capture_output=True, text=True, timeout=3600)
+    if not os.path.exists(out):
+        raise Inconclusive(f"taint run failed: {r.stderr[-400:]}")
+    td = json.load(open(out))
+    if not td.get("running_on_valgrind"):
+        raise Inconclusive("client requests not honoured (not running on valgrind?)")
+    cur, reports = None, {}
+    lines = r.stderr.splitlines()
+    for i, line in enumerate(lines):
+        if line.startswith("TAINT-KERNEL-BEGIN"):
+            cur = line.split()[1]
+        elif line.startswith("TAINT-KERNEL-END"):
+            cur = None
+        elif ("Conditional jump or move depends on uninitialised" in line or "Use of uninitialised value" in line) and cur:
+            frames = [re.sub(r"==\d+==\s+", "", x) for x in lines[i + 1:i + 5]]
+            reports.setdefault(cur, []).append((line.split("== ")[-1], frames))
+    violations = []
+    for k, rs in reports.items():
+        violations.append(dict(signature=f"C14|secret-taint|{k}",
+                               detail=f"memcheck: {len(rs)} secret-dependent branch/address reports inside kernel {k}: {rs[0][0]} at {' | '.join(rs[0][1][:3])}",
+                               replay=dict(kind="c14-taint", kernel=k, seed=a["seed"])))
+    n = len(td["kernels"])
+    return dict(property_id="C14", stage="c14-taint", build="release+memcheck", tier=a["tier"], seed=a["seed"], rule="", exhaustive=False,
+                evaluations=n * 5, distinct_nontrivial=n * 5,
+                samples=[dict(kernels_tainted=td["kernels"], variants_per_kernel=5, memcheck_reports_inside_kernels=sum(len(v) for v in reports.values()))],
+                counters=dict(taint_kernels=n, taint_reports=sum(len(v) for v in reports.values())), violations=violations, inconclusive=[], wall_s=time.time() - t0)
+
+
+def c14_callgrind(a):
+    """machine-level cross-check of the pipeline: per-instruction and per-branch profiles must be identical"""
+    if not shutil.which("valgrind"):
+        raise Inconclusive("valgrind not available")
+    exe = _build_ct(a, None)
+    t0 = time.time()
+    import random
+    rnd = random.Random(a["seed"])
+    n = 8 if a["tier"] == "quick" else 32
+    violations, counters, samples = [], {}, []
+    evals = 0
+    for st in (44, 65, 87):
+        inputs = ["00" * 64, "ff" * 64] + ["".join(f"{rnd.randrange(256):02x}" for _ in range(64)) for _ in range(n - 2)]
+        def one(i_hex):
+            i, hx = i_hex
+            out = os.path.join(a["work"], f"c14-cg-{st}-{i}.out")
+            r = subprocess.run(["valgrind", "--tool=callgrind", "--dump-instr=yes", "--collect-jumps=yes", "--toggle-collect=ct::pipeline_call",
+                                f"--callgrind-out-file={out}", exe, "one", str(st), hx], capture_output=True, text=True, timeout=3600)
+            if r.returncode != 0 or not os.path.exists(out):
+                return None
+            body = [l for l in open(out) if not re.match(r"^(pid|cmd|desc|creator|part|thread|# callgrind|version|positions|events|summary|totals):?", l)]
+            tot = [l for l in open(out) if l.startswith("totals:") or l.startswith("summary:")]
+            os.remove(out)
+            return hashlib.sha256("".join(body).encode()).hexdigest(), (tot[0].strip() if tot else "")
+        from concurrent.futures import ThreadPoolExecutor
+        with ThreadPoolExecutor(max_workers=16) as ex:
+            res = list(ex.map(one, enumerate(inputs)))
+        if any(r is None for r in res):
+            raise Inconclusive("callgrind run failed")
+        evals += len(res)
+        digests = set(r[0] for r in res)
+        counters[f"callgrind_ML-DSA-{st}_profiles"] = len(res)
+        counters[f"callgrind_ML-DSA-{st}_distinct_profiles"] = len(digests)
+        samples.append(dict(set=st, inputs=len(res), distinct_profiles=len(digests), totals=res[0][1]))
+        if len(digests) != 1:
+            violations.append(dict(signature=f"C14|callgrind-profile-differs|ML-DSA-{st}",
+                                   detail=f"{len(digests)} distinct per-instruction/per-branch execution profiles over {len(res)} RNG outputs",
+                                   replay=dict(kind="c14-callgrind", set=st, seed=a["seed"])))
+    return dict(property_id="C14", stage="c14-callgrind", build="release+callgrind", tier=a["tier"], seed=a["seed"], rule="", exhaustive=False,
+                evaluations=evals, distinct_nontrivial=evals, samples=samples, counters=counters, violations=violations, inconclusive=[], wall_s=time.time() - t0)
+
+
+PLANS["C14"] = dict(
+    level="exploration",
+    rule_prefix="SanitizerCoverage (edge sequence + load/store address sequence, rolling hashes and counts) of dudect_keygen_sign_with_rng for RNG outputs {0^64, FF^64, all 512 single-bit values, all 512 single-zero-bit values, seeded random} per set, and of each secret-handling kernel alone on in-domain variants {all-min, all-max, alternating, single spike, boundary values, random}: exactly one distinct trace must be observed per function (signatures must differ across inputs). quick: opt-level 3; thorough: opt-levels 1, s, 3 and 20000 RNG outputs per set. Plus valgrind memcheck secret-taint of the kernels (inputs marked undefined; any tainted branch or address is a violation) and, in thorough, callgrind per-instruction/per-branch profile equality of the pipeline. Non-trivial = distinct inputs (distinct signatures / distinct kernel input digests). ",
+    stages=[dict(name="c14-sancov", kind="py", func="c14_sancov"),
+            dict(name="c14-taint", kind="py", func="c14_taint"),
+            dict(name="c14-callgrind", kind="py", func="c14_callgrind", tiers=["thorough"])],
+    assumptions=["decided on optimised builds (opt-level 1, s, 3: the crate's dev, release and bench profiles); opt-level 0 is excluded (core's i32::abs / Ord::max are out-of-line branchy functions there)",
+                 "LLVM-IR level observation: memcpy/memset intrinsics are not traced; backed at machine-code level by memcheck taint (kernels) and callgrind profiles (pipeline)",
+                 "public-data code (use_hint, is_in_range's failure path, sample_in_ball::<false>, rejection samplers, verify) is out of scope, as in the crate's own constant-time claim"])
+
+
+# ---------------------------------------------------------------------------------------------
+# C17: feature matrix
+# ---------------------------------------------------------------------------------------------
+
+def _c17_configs():
+    sets = ["ml-dsa-44", "ml-dsa-65", "ml-dsa-87"]
+    out = []
+    for mask in range(1, 8):
+        chosen = [s for i, s in enumerate(sets) if mask >> i & 1]
+        for rng in (False, True):
+            for dd in (False, True):
+                out.append(dict(sets=chosen, rng=rng, dudect=dd,
+                                features=chosen + (["default-rng"] if rng else []) + (["dudect"] if dd else [])))
+    return out
+
+
+def c17_matrix(a):
+    from concurrent.futures import ThreadPoolExecutor
+    tier, seed = a["tier"], a["seed"]
+    t0 = time.time()
+    configs = _c17_configs()
+    assert len(configs) == 28
+    base = os.path.join(a["verif"], "target", "c17")
+    os.makedirs(base, exist_ok=True)
+    kat_dir = os.path.join(a["verif"], "kat")
+    shutil.copyfile("/repo/Cargo.lock", os.path.join(kat_dir, "Cargo.lock")) if os.path.exists("/repo/Cargo.lock") else None
+    env = dict(a["env"])
+    workers = 4
+    profiles = ["release"] + (["checked"] if tier == "thorough" else [])
+    nightly = subprocess.run(["cargo", "+nightly", "--version"], capture_output=True, text=True).returncode == 0
+
+    def run(cmd, cwd, tdir, extra_env=None, timeout=1800):
+        e = dict(env)
+        e["CARGO_TARGET_DIR"] = tdir
+        if extra_env:
+            e.update(extra_env)
+        r = subprocess.run(cmd, cwd=cwd, env=e, capture_output=True, text=True, timeout=timeout)
+        return r.returncode, (r.stdout + r.stderr)
+
+    def work(w):
+        res = []
+        tdir = os.path.join(base, f"t{w}")
+        for ci, cfg in enumerate(configs):
+            if ci % workers != w:
+                continue
+            feats = " ".join(cfg["features"])
+            rec = dict(features=feats, sets=[s[-2:] for s in cfg["sets"]], rng=cfg["rng"], dudect=cfg["dudect"])
+            # stage 1: the library itself, warnings are errors through the crate's own deny(warnings)
+            verb = "build" if tier == "thorough" else "check"
+            rc, out = run(["cargo", verb, "--lib", "--no-default-features", "--features", feats], "/repo", tdir)
+            rec["lib_ok"] = rc == 0
+            if rc != 0:
+                rec["lib_output"] = out[-1500:]
+            # stage 2: known-answer transcript
+            rec["kat"] = {}
+            for prof in profiles:
+                rc, out = run(["cargo", "build", "--profile", prof, "--features", feats], kat_dir, tdir)
+                if rc != 0:
+                    rec["kat"][prof] = dict(build_ok=False, output=out[-1500:])
+                    continue
+                exe = os.path.join(tdir, prof, "kat")
+                r = subprocess.run([exe], capture_output=True, text=True, timeout=600)
+                lines = [l.split() for l in r.stdout.splitlines()]
+                rec["kat"][prof] = dict(build_ok=True, exit=r.returncode,
+                                        kat={l[1]: l[2] for l in lines if l and l[0] == "KAT"},
+                                        dudect={l[1]: l[2] for l in lines if l and l[0] == "DUDECT"},
+                                        osrng={l[1]: l[2] for l in lines if l and l[0] == "OSRNG"},
+                                        stderr=r.stderr[-600:] if r.returncode != 0 else "")
+            # stage 3: no_std
+            if not cfg["rng"]:
+                if nightly:
+                    rc, out = run(["cargo", "+nightly", "build", "--lib", "-Zbuild-std=core", "--target", "x86_64-unknown-none",
+                                   "--no-default-features", "--features", feats], "/repo", os.path.join(base, f"nostd{w % 2}"),
+                                  extra_env={"RUSTFLAGS": "--cap-lints warn"}, timeout=3600)
+                    rec["nostd_ok"] = rc == 0
+                    if rc != 0:
+                        rec["nostd_output"] = out[-1500:]
+                else:
+                    rec["nostd_ok"] = None
+            else:
+                rc, out = run(["cargo", "tree", "--no-default-features", "--features", feats, "-e", "normal", "-f", "{p}|{f}"], "/repo", tdir)
+                stdfeat = [l.strip() for l in out.splitlines() if "|" in l and re.search(r"(^|,)std(,|$)", l.split("|", 1)[1].strip())]
+                rec["tree_ok"] = rc == 0
+                rec["std_features_enabled"] = stdfeat
+            res.append(rec)
+        return res
+
+    with ThreadPoolExecutor(max_workers=workers) as ex:
+        results = [r for rs in ex.map(work, range(workers)) for r in rs]
+    results.sort(key=lambda r: r["features"])
+
+    violations, inconclusive = [], []
+    default = [r for r in results if r["features"] == "ml-dsa-44 ml-dsa-65 ml-dsa-87 default-rng"][0]
+    ok_cfgs = 0
+    evaluations = 0
+    for prof in profiles:
+        ref = default["kat"].get(prof, {})
+        if not ref.get("build_ok") or ref.get("exit") != 0 or len(ref.get("kat", {})) != 3:
+            violations.append(dict(signature=f"C17|default-config-kat-failed|{prof}", detail=f"the default configuration's known-answer program did not build/run: {str(ref)[:600]}",
+                                   replay=dict(kind="c17", features=default["features"], profile=prof)))
+    for r in results:
+        good = True
+        evaluations += 1
+        if not r["lib_ok"]:
+            good = False
+            violations.append(dict(signature=f"C17|lib-build-failed|{r['features']}", detail=f"cargo build/check --lib --no-default-features --features '{r['features']}' failed: {r.get('lib_output', '')[-700:]}",
+                                   replay=dict(kind="c17", features=r["features"], stage="lib")))
+        for prof in profiles:
+            k = r["kat"].get(prof, {})
+            evaluations += 1
+            if not k.get("build_ok"):
+                good = False
+                violations.append(dict(signature=f"C17|kat-build-failed|{r['features']}|{prof}", detail=f"a program using the crate with features '{r['features']}' does not build: {k.get('output', '')[-700:]}",
+                                       replay=dict(kind="c17", features=r["features"], stage="kat", profile=prof)))
+                continue
+            if k.get("exit") != 0:
+                good = False
+                violations.append(dict(signature=f"C17|kat-run-failed|{r['features']}|{prof}", detail=f"known-answer program failed at run time (exit {k.get('exit')}): {k.get('stderr', '')}",
+                                       replay=dict(kind="c17", features=r["features"], stage="kat", profile=prof)))
+                continue
+            ref = default["kat"].get(prof, {}).get("kat", {})
+            if sorted(k["kat"].keys()) != sorted(r["sets"]):
+                good = False
+                violations.append(dict(signature=f"C17|kat-sets-missing|{r['features']}", detail=f"enabled sets {r['sets']} but transcripts for {sorted(k['kat'])}",
+                                       replay=dict(kind="c17", features=r["features"], stage="kat", profile=prof)))
+            for s, dg in k["kat"].items():
+                if ref.get(s) and dg != ref[s]:
+                    good = False
+                    violations.append(dict(signature=f"C17|kat-differs|{r['features']}|ML-DSA-{s}|{prof}",
+                                           detail=f"ML-DSA-{s} keys/signatures/decisions under features '{r['features']}' differ from the default configuration ({dg[:16]} vs {ref[s][:16]})",
+                                           replay=dict(kind="c17", features=r["features"], stage="kat", profile=prof, set=s)))
+            for s, v in k.get("osrng", {}).items():
+                if v != "ok":
+                    good = False
+                    violations.append(dict(signature=f"C17|osrng-failed|{r['features']}|ML-DSA-{s}", detail="OS-RNG convenience functions failed or produced unverifiable output",
+                                           replay=dict(kind="c17", features=r["features"], stage="kat", profile=prof, set=s)))
+            if r["rng"] and sorted(k.get("osrng", {}).keys()) != sorted(r["sets"]):
+                good = False
+                violations.append(dict(signature=f"C17|osrng-missing|{r['features']}", detail="default-rng enabled but the OS-RNG functions were not exercised for every set",
+                                       replay=dict(kind="c17", features=r["features"], stage="kat", profile=prof)))
+        if r.get("nostd_ok") is False:
+            good = False
+            violations.append(dict(signature=f"C17|no_std-build-failed|{r['features']}", detail=f"build for x86_64-unknown-none with -Zbuild-std=core failed (a dependency on std/alloc?): {r.get('nostd_output', '')[-700:]}",
+                                   replay=dict(kind="c17", features=r["features"], stage="nostd")))
+        if r.get("nostd_ok") is None and not r["rng"]:
+            inconclusive.append("nightly toolchain unavailable: no_std target build skipped")
+        if r["rng"]:
+            if not r.get("tree_ok"):
+                inconclusive.append(f"cargo tree failed for '{r['features']}'")
+            elif r.get("std_features_enabled"):
+                good = False
+                violations.append(dict(signature=f"C17|std-feature-enabled|{r['features']}", detail=f"a dependency is built with its std feature: {r['std_features_enabled'][:3]}",
+                                       replay=dict(kind="c17", features=r["features"], stage="tree")))
+        ok_cfgs += 1 if good else 0
+    # dudect transcripts agree among dudect configurations (release profile)
+    dd = {}
+    for r in results:
+        for s, dg in r["kat"].get("release", {}).get("dudect", {}).items():
+            dd.setdefault(s, set()).add(dg)
+    for s, ds in dd.items():
+        if len(ds) != 1:
+            violations.append(dict(signature=f"C17|dudect-differs|ML-DSA-{s}", detail="dudect_keygen_sign_with_rng output differs between feature configurations",
+                                   replay=dict(kind="c17", stage="dudect", set=s)))
+    samples = [dict(features=r["features"], lib_ok=r["lib_ok"], kat=r["kat"].get("release", {}).get("kat"), nostd_ok=r.get("nostd_ok"),
+                    std_features=r.get("std_features_enabled")) for r in results[:3]] + \
+              [dict(default_configuration=default["features"], kat=default["kat"].get("release", {}).get("kat"))]
+    return dict(property_id="C17", stage="c17-matrix", build="feature-matrix", tier=tier, seed=seed, rule="", exhaustive=True,
+                evaluations=evaluations, distinct_nontrivial=ok_cfgs, samples=samples,
+                counters=dict(configurations=len(results), configurations_all_ok=ok_cfgs,
+                              nostd_builds=sum(1 for r in results if r.get("nostd_ok")), dudect_configs=sum(1 for r in results if r["dudect"])),
+                violations=violations, inconclusive=sorted(set(inconclusive)), wall_s=time.time() - t0)
+
+
+PLANS["C17"] = dict(
+    level="exploration",
+    rule_prefix="all 28 configurations (7 non-empty subsets of {ml-dsa-44, ml-dsa-65, ml-dsa-87} x default-rng on/off x dudect on/off): (1) cargo check/build --lib --no-default-features --features <cfg> must succeed (the crate's deny(warnings, dead_code, ...) turns any warning into an error); (2) a known-answer program built against the crate with the same features prints SHA-256 of a transcript per enabled set (keys from 4 seeds via both keygen paths, derived and round-tripped keys, signatures in 4 modes under a scripted RNG, _internal_sign, verification decisions on valid/corrupted/wrong-context inputs, long-context rejection) which must equal the default configuration's digest for that set; default-rng configurations also run the OS-RNG functions; dudect configurations compare dudect output among themselves; (3) the 14 configurations without default-rng are built for x86_64-unknown-none with -Zbuild-std=core (no std in the sysroot), the others must not enable any dependency's std feature (cargo tree). Non-trivial = configurations for which every stage passed. ",
+    stages=[dict(name="c17-matrix", kind="py", func="c17_matrix")],
+    assumptions=["the default configuration is the reference for behaviour; its own correctness is C01-C04's business",
+                 "nightly lints are capped to warnings in the no_std target build so that only a real std/alloc dependency can fail it"])
+
+
+def c16_miri(a):
+    """C16 under Miri (one process per set, in parallel)"""
+    t0 = time.time()
+    if subprocess.run(["cargo", "+nightly", "miri", "--version"], capture_output=True).returncode != 0:
+        raise Inconclusive("miri not available")
+    env = dict(a["env"])
+    env["MIRIFLAGS"] = "-Zmiri-disable-isolation"
+    procs = [(st, subprocess.Popen(["cargo", "+nightly", "miri", "run", "-p", "c16miri", "--", str(st)], cwd=a["harness"], env=env,
+                                   stdout=subprocess.PIPE, stderr=subprocess.PIPE, text=True)) for st in (44, 65, 87)]
+    violations, samples, evals = [], [], 0
+    for st, pr in procs:
+        try:
+            out, err = pr.communicate(timeout=5400)
+        except subprocess.TimeoutExpired:
+            pr.kill()
+            raise Inconclusive("miri run exceeded its watchdog")
+        probes = [l for l in out.splitlines() if l.startswith("C16MIRI probe")]
+        evals += len(probes)
+        if "Undefined Behavior" in err:
+            violations.append(dict(signature=f"C16|miri-ub|ML-DSA-{st}", detail="Miri reports undefined behaviour while dropping / reading back a key object: " + err[err.find("Undefined Behavior"):][:500],
+                                   replay=dict(kind="c16-miri", set=st)))
+        elif f"C16MIRI ok set={st}" in out:
+            samples.append(dict(set=st, tool="miri", probes=probes[:2]))
+        elif f"C16MIRI VIOLATION set={st}" in out:
+            violations.append(dict(signature=f"C16|not-erased-under-miri|ML-DSA-{st}", detail="; ".join(probes), replay=dict(kind="c16-miri", set=st)))
+        else:
+            raise Inconclusive(f"miri run for ML-DSA-{st} ended without a verdict: {err[-400:]}")
+    return dict(property_id="C16", stage="c16-miri", build="miri", tier=a["tier"], seed=a["seed"], rule="", exhaustive=False,
+                evaluations=evals, distinct_nontrivial=evals, samples=samples, counters=dict(miri_probes=evals), violations=violations, inconclusive=[], wall_s=time.time() - t0)
